@@ -82,7 +82,7 @@ def evaluate(case, rec):
         s["qpos"], s["qvel"], s["act"] = H.f32(tmp.qpos), H.f32(tmp.qvel), H.f32(tmp.act)
   H.set_data(d, states)
   mjw.forward(m, d)
-  of = H.overflow(d)
+  of = H.overflow_fwd(d)
   if (of & int(OT.NEFC | OT.NJMAX_NNZ | OT.BROADPHASE | OT.NARROWPHASE)).any():
     rec.inconclusive += 1
     return mjm, m, d, []
